@@ -230,7 +230,9 @@ def _members(labels, rng):
         lab: member.OpMember(np.array([[float(v)]]), np.array([[float(e)]]))
         for lab, v, e in zip(labels, vals, errs)
     }
-    ad = [[int(lab[0]), int(lab[1]), int(v)] for lab, v in zip(labels, vals)]
+    ad = [
+        [int(lab[0]), int(lab[1]), int(v)] for lab, v in zip(labels, vals) if isinstance(lab, tuple)
+    ]
     return ops, ad
 
 
@@ -292,8 +294,16 @@ def c32_blowup(fam, nf, qed, rng):
     return rec
 
 
+def _with_t_ladder(label):
+    """get_range documents the assumption that the T member of a ladder accompanies its V."""
+    if label[0] == "V" and len(label) > 1 and label not in ("Vdelta",):
+        return "T" + label[1:]
+    return None
+
+
 def c32_range_records(rng, n):
-    """get_range on random sub-label-sets (pairs target.input drawn from two bases)."""
+    """get_range on random label sets (pairs target.input drawn from two bases), closed under
+    the documented assumption of get_range (a V ladder never comes without its T ladder)."""
     from eko import member
     from eko.evolution_operator import flavors
 
@@ -303,6 +313,10 @@ def c32_range_records(rng, n):
         nfi, nfo = rng.choice(NFS), rng.choice(NFS)
         li, lo = basis_labels(nfi, qed), basis_labels(nfo, qed)
         labs = [[rng.choice(lo), rng.choice(li)] for _ in range(rng.randint(1, 6))]
+        for t, i in list(labs):
+            tt, ti = _with_t_ladder(t), _with_t_ladder(i)
+            if tt or ti:
+                labs.append([tt or t, ti or i])
         rec = {"ev": "range", "qed": qed, "labs": labs, "err": "", "got": [0, 0]}
         try:
             got = flavors.get_range([member.MemberName(f"{t}.{i}") for t, i in labs], qed)
